@@ -90,6 +90,11 @@ def residual_uniform(check, proj):
 
 
 def body(check):
+    from ..disc1d import over_cond_paths
+    over_cond_paths(check, _body_paths)
+
+
+def _body_paths(check):
     proj = check.proj
     check.explanation = ("static analysis: access-relation decoding (STN) of gradients, periodic closures, reconstructions and "
                          "calc_bc; each seam-face relation is compared, as a ring identity, with the interior template whose "
